@@ -10,7 +10,7 @@ from __future__ import annotations
 import ast
 
 from ..cfg import cfg_of
-from ..flow import flow_of, path_of
+from ..flow import deref, flow_of, path_of
 from ..loader import FUNC, AnalysisError, const_fold, dotted, last_name, loc, short, walk_local, enclosing_stmt
 from ..util import FORMATTER, PATH, REPEX, SETUP, is_self_attr, kwarg, last_key, oriented
 from ..variants import B, K
@@ -218,7 +218,7 @@ def r83(ctx):
                     construct=short(c, 80))
             continue
         # guards
-        lag = any(t and _is_lag_guard(e, fifo) for e, t, _ in cfg.guards(at))
+        lag = any(t and _is_lag_guard(e, fifo, fl, at) for e, t, _ in cfg.guards(at))
         init = any(t and _is_initial_guard(e, fl, at) for e, t, _ in cfg.guards(at))
         if not lag:
             ctx.bad(rid, c, "deletion is not guarded by the lag test on the FIFO length (len(self.pn_olds) > self.n - 2)")
@@ -262,11 +262,15 @@ def r83(ctx):
             ctx.bad(rid, c, "_move_path removes a file that is not a destination under the new path's own directory")
 
 
-def _gt_n_minus_2(o):
-    """(lhs, op, rhs) says  lhs > self.n - 2  (equivalently >= self.n - 1)?"""
+def _gt_n_minus_2(o, fl=None, at=None):
+    """(lhs, op, rhs) says  lhs > self.n - 2  (equivalently >= self.n - 1)?  A local that holds
+    the pure expression `self.n - 2` is looked through."""
     if o is None:
         return False
-    r = ast.unparse(o[2]).replace(" ", "")
+    rhs = o[2]
+    if fl is not None and at is not None and isinstance(rhs, ast.Name):
+        rhs = deref(fl, rhs, at)[0]
+    r = ast.unparse(rhs).replace(" ", "")
     return (isinstance(o[1], ast.Gt) and r == "self.n-2") or (isinstance(o[1], ast.GtE) and r == "self.n-1")
 
 
@@ -288,12 +292,12 @@ def _is_initial_guard(e, fl=None, at=None):
     """<replaced path's number> > self.n - 2  (or >= self.n - 1), in either orientation."""
     if fl is None:
         return _gt_n_minus_2(oriented(e, lambda x: isinstance(x, ast.Name)))
-    return _gt_n_minus_2(oriented(e, lambda x: _is_replaced_number(x, fl, at)))
+    return _gt_n_minus_2(oriented(e, lambda x: _is_replaced_number(x, fl, at)), fl, at)
 
 
-def _is_lag_guard(e, fifo):
+def _is_lag_guard(e, fifo, fl=None, at=None):
     """len(<fifo>) > self.n - 2 (or >= self.n - 1), in either orientation."""
-    return _gt_n_minus_2(oriented(e, lambda x: isinstance(x, ast.Call) and dotted(x.func) == "len" and x.args and path_of(x.args[0]) == fifo))
+    return _gt_n_minus_2(oriented(e, lambda x: isinstance(x, ast.Call) and dotted(x.func) == "len" and x.args and path_of(x.args[0]) == fifo), fl, at)
 
 
 def r84(ctx):
